@@ -660,6 +660,12 @@ def part_valgrind(c, bindir_rel, hx):
     for t, sname in stream_matrix(c):
         if len(t.stdin) > 20000 or sname.endswith("@file"):
             continue
+        if sname == "options" and ("-opt " in t.label or "-hostile-args" in t.label):
+            # the generated option matrix is large: memcheck sees every 4th of what the sanitizer build saw
+            nopt = getattr(part_valgrind, "_n", 0) + 1
+            part_valgrind._n = nopt
+            if nopt % 4:
+                continue
         if sname == "options" or c.tier == "thorough" or sname in VALGRIND_QUICK:
             jobs.append((t, sname))
 
@@ -795,11 +801,17 @@ def main(argv):
     if drv is None:
         c.broken.append("extraction/driver build failed: " + dlog[-600:])
     kconst = {}
-    part_formatters(c, drv, kconst)
-    part_tools(c, os.path.dirname(repo_bin("x", SAN)), os.path.dirname(hx_bin("x")), os.path.dirname(repo_bin("x")))
-    part_faults_sanitized(c, os.path.dirname(repo_bin("x", SAN)), os.path.dirname(hx_bin("x")))
-    part_valgrind(c, os.path.dirname(repo_bin("x")), os.path.dirname(hx_bin("x")))
-    part_valgrind_faults(c, os.path.dirname(repo_bin("x")), os.path.dirname(hx_bin("x")))
+    phases = {}
+    for name, fn in (("formatters+streams", lambda: part_formatters(c, drv, kconst)),
+                     ("sanitizer sampling", lambda: part_tools(c, os.path.dirname(repo_bin("x", SAN)), os.path.dirname(hx_bin("x")), os.path.dirname(repo_bin("x")))),
+                     ("sanitizer under faults", lambda: part_faults_sanitized(c, os.path.dirname(repo_bin("x", SAN)), os.path.dirname(hx_bin("x")))),
+                     ("memcheck", lambda: part_valgrind(c, os.path.dirname(repo_bin("x")), os.path.dirname(hx_bin("x")))),
+                     ("memcheck under faults", lambda: part_valgrind_faults(c, os.path.dirname(repo_bin("x")), os.path.dirname(hx_bin("x"))))):
+        t0 = time.time()
+        fn()
+        phases[name] = round(time.time() - t0, 1)
+    c.cov["phase_seconds"] = phases
+    log("  phases: %s" % phases)
     if c.tier == "thorough":
         coqchk(c)
     shutil.rmtree(SCRATCH, ignore_errors=True)
